@@ -174,6 +174,12 @@ pub fn run(ctx: &RunCtx) -> Outcome {
     if !stage(ctx, &mut o, &p, "plain (delegable) patterns x all single sites", &expand(&c3), &plain_texts) {
         return o;
     }
+    {
+        let mb = space(&gen::meta_cfg(), 3, false);
+        if !stage(ctx, &mut o, &p, "meta-character literals x all single sites", &expand(&mb), &gen::texts(&gen::META_SIGMA, 3)) {
+            return o;
+        }
+    }
     let n = if quick { 4 } else { 5 };
     let b4: Vec<Node> = space(&gen::core_cfg(), n, false).into_iter().filter(|x| x.size() > 3).collect();
     let t4 = {
